@@ -22,11 +22,13 @@ try:
     rc, out = sh("git apply %s" % os.path.join(seed, "patch.diff"))
     if rc: raise SystemExit("patch does not apply: " + out)
     touched = sorted({"./" + os.path.dirname(l[6:]) + "/..." for l in open(os.path.join(seed, "patch.diff")) if l.startswith("+++ b/")})
-    rc, out = sh("go build ./... && flock /tmp/repo-tests.lock go test -vet=off -count=1 -p 1 %s" % " ".join(sorted(set(touched + [pkg]))))
+    rc, out = sh("go build ./... && go build -tags docker ./... && flock /tmp/repo-tests.lock go test -vet=off -count=1 -p 1 %s" % " ".join(sorted(set(touched + [pkg]))))
     res["with_change_existing_tests_pass"] = rc == 0
     if rc: res["existing_tests_output"] = out[-1500:]
     open(os.path.join(wt, target), "w").write(demo)
-    run = "flock /tmp/repo-tests.lock go test -vet=off -count=1 -run 'Seed' ./%s/" % os.path.dirname(target)
+    tags = "-tags docker " if re.search(r"-tags[ =]\"?docker", demo.split("\n", 1)[0]) else ""   # demonstrations under the production constants say so in their first line
+    res["demo_tags"] = tags.strip()
+    run = "flock /tmp/repo-tests.lock go test %s-vet=off -count=1 -run 'Seed' ./%s/" % (tags, os.path.dirname(target))
     rc, out = sh(run)
     res["with_change_demo_fails"] = rc != 0
     res["demo_output_with_change"] = out[-600:]
